@@ -859,8 +859,10 @@ class DMRGBackendImpl(MPSBackendImpl):
 
 def create_impl(data: SequenceData, config: MPSConfig) -> MPSBackendImpl:
 
+    if config.solver == Solver.DMRG:
+        # DMRGBackendImpl refuses every noise type, including the ones that produce
+        # Lindblad operators: those must not silently fall back to TDVP with quantum jumps
+        return DMRGBackendImpl(config, data)
     if data.lindblad_ops:
         return NoisyMPSBackendImpl(config, data)
-    if config.solver == Solver.DMRG:
-        return DMRGBackendImpl(config, data)
     return MPSBackendImpl(config, data)
